@@ -5,6 +5,7 @@ import json, os, subprocess, sys, tempfile, xml.etree.ElementTree as ET
 base = json.load(open("/root/.vp/BASELINE.json"))
 env = dict(os.environ)
 env.pop("FIBERTREE_VERIF", None)
+env["PYTHONPATH"] = os.environ.get("FT_REPO", "/repo")
 with tempfile.TemporaryDirectory() as td:
     x = os.path.join(td, "j.xml")
     subprocess.run(["/venv/bin/python", "-m", "pytest", "-ra", "-q", "-p", "no:cacheprovider",
